@@ -156,6 +156,26 @@ func (catWorld) Gen(seed uint64, tier string) core.Scenario {
 			s.InOps = []CatOp{{Op: "open"}, {Op: "listen"}, {Op: "drain"}, {Op: "stop"}, {Op: "close"}}
 			return s
 		}
+		if r.Chance(1, 40) {
+			// stop functions that outlive a close and re-open of the port: k listeners before the
+			// re-open, k after it, then a stop function of the first open period is called again
+			k := r.Range(1, 3)
+			s.InOps = []CatOp{{Op: "open"}}
+			for i := 0; i < k; i++ {
+				s.InOps = append(s.InOps, CatOp{Op: "listen"}, CatOp{Op: "wait", N: r.PickInt(1, 5, 20)}, CatOp{Op: "stop"})
+			}
+			s.InOps = append(s.InOps, CatOp{Op: "close"}, CatOp{Op: "open"})
+			for i := 0; i < k; i++ {
+				s.InOps = append(s.InOps, CatOp{Op: "listen"})
+				if i < k-1 {
+					s.InOps = append(s.InOps, CatOp{Op: "wait", N: r.PickInt(1, 5)}, CatOp{Op: "stop"})
+				}
+			}
+			// the latest listener stays active; the N-th latest successful Listen before it
+			// belongs to the first open period for N >= k
+			s.InOps = append(s.InOps, CatOp{Op: "stop", N: r.Range(k, 2*k-1)}, CatOp{Op: "wait", N: r.PickInt(60, 150)}, CatOp{Op: "stop"}, CatOp{Op: "close"})
+			return s
+		}
 		if r.Chance(1, 6) {
 			s.SlowAt, s.SlowSlots = r.Range(1, 6), r.PickInt(20, 100, 400)
 		}
@@ -515,6 +535,20 @@ func encodeLine(ts int32, msg []byte) []byte {
 
 var hooksInstalled bool
 
+// listingOutput is what the helper answers to its short-lived invocations.
+func listingOutput(c *exec.Cmd) ([]byte, bool) {
+	joined := strings.Join(c.Args, " ")
+	switch {
+	case strings.Contains(joined, "version"):
+		return []byte("0.6.9"), true
+	case strings.Contains(joined, "ins --json"):
+		return []byte(`{"0":"sim-in-0","1":"sim-in-1"}`), true
+	case strings.Contains(joined, "outs --json"):
+		return []byte(`{"0":"sim-out-0","1":"sim-out-1"}`), true
+	}
+	return nil, false
+}
+
 // installHooks installs the simulator's hooks once per process; they act on the world of
 // the current run.
 func installHooks() {
@@ -529,18 +563,36 @@ func installHooks() {
 		Enter:  enter,
 		Exit:   exit,
 		Output: func(c *exec.Cmd) ([]byte, error) {
-			joined := strings.Join(c.Args, " ")
-			switch {
-			case strings.Contains(joined, "version"):
-				return []byte("0.6.9"), nil
-			case strings.Contains(joined, "ins --json"):
-				return []byte(`{"0":"sim-in-0","1":"sim-in-1"}`), nil
-			case strings.Contains(joined, "outs --json"):
-				return []byte(`{"0":"sim-out-0","1":"sim-out-1"}`), nil
+			if out, ok := listingOutput(c); ok {
+				return out, nil
 			}
-			return nil, fmt.Errorf("unknown helper invocation %q", joined)
+			return nil, fmt.Errorf("unknown helper invocation %q", strings.Join(c.Args, " "))
+		},
+		CmdWait: func(c *exec.Cmd) error {
+			if _, ok := listingOutput(c); ok {
+				return nil
+			}
+			w := getWorld()
+			if w == nil {
+				return errors.New("exec: not started")
+			}
+			h := w.findHelper(c)
+			if h == nil {
+				return errors.New("exec: not started")
+			}
+			<-h.exited
+			yield() // woken: re-enter the seeded schedule
+			return nil
 		},
 		Start: func(c *exec.Cmd) error {
+			// the short-lived invocations (version, port lists) started by hand instead of
+			// through Output: the process writes its answer and ends
+			if out, ok := listingOutput(c); ok {
+				if c.Stdout != nil {
+					c.Stdout.Write(out)
+				}
+				return nil
+			}
 			w := getWorld()
 			kind := "in"
 			if len(c.Args) > 1 && c.Args[1] == "out" {
@@ -680,11 +732,29 @@ func (w *world) takeRec() int64 {
 // death returns nil, the second one blocks for good.)
 func (w *world) runOutHelper(h *helper) {
 	in := h.cmd.Stdin
-	buf := make([]byte, h.cfg.ReadBuf)
+	// Whatever one Write hands over is taken in one piece: between the driver and the process
+	// sit os/exec's copying goroutine (32 KiB reads) and the kernel's pipe buffer, so a line
+	// written with one Write call is never seen in parts, whereas a line written in several
+	// calls can be cut or interleaved. (ReadBuf of older scenarios no longer matters.)
+	buf := make([]byte, 32*1024)
 	var acc []byte
 	lines := 0
 	afterlife := func() {
 		h.exit()
+		// complete lines the process had taken from its stdin but not yet acted upon die with it
+		for {
+			i := bytes.IndexByte(acc, '\n')
+			if i < 0 {
+				break
+			}
+			logEvent("helper-line-lost-in-dead-process", 0, 0, string(acc[:i]))
+			acc = acc[i+1:]
+		}
+		if own, ok := in.(midicatdrv.VerifOwnedStdin); ok {
+			// a pipe made by StdinPipe is the process's own stdin: it goes away with it
+			own.Close()
+			return
+		}
 		big := make([]byte, 32*1024)
 		n, _ := in.Read(big)
 		logEvent("helper-dropped", int64(n), 0, "out")
